@@ -563,7 +563,7 @@ func (t *Throttle) Submit(f func() error) error {
 		t.pending++
 	}
 	t.Unlock()
-	if tooMany {
+	if tooMany && !disabled {
 		return ThrottleOverflow
 	}
 
